@@ -13,3 +13,14 @@ package cache
 //@   at call NewBasePathFs#3 assert [base-path-only-for-named-root-dir] !rootSpelling(root) && arg_path == root && arg_source == base
 //@   at call NewBasePathFs#5 assert [base-path-only-for-named-root-none] !rootSpelling(root) && arg_path == root && arg_source == base
 //@   ensures [root-spelling-uses-base-directly] cacheType == "" && rootSpelling(root) && result1 == nil ==> result0 == base
+
+// The in-memory write cache against the byte-array-with-cursor view the file layer relies on (cache.WriteCache.Write
+// in /verif/specs/70_file.spec): the cursor advances by the bytes written, the length only grows, and it grows to
+// exactly the new cursor when the write reaches beyond the old end.
+//@ func (filebufferWithSize).Write
+//@   property C14
+//@   requires f.Buffer != nil && f.Buffer.Buff != nil && bufLen[f.Buffer.Buff] >= 0
+//@   modifies *, bufLen[f.Buffer.Buff]
+//@   ensures [cursor-advances-by-written] err == nil ==> n == len(p) && f.Buffer.Index == old(f.Buffer.Index) + len(p)
+//@   ensures [overwrites-in-place] err == nil ==> bufLen[f.Buffer.Buff] == ite(old(bufLen[f.Buffer.Buff]) >= f.Buffer.Index, old(bufLen[f.Buffer.Buff]), f.Buffer.Index)
+//@   ensures [never-shrinks] bufLen[f.Buffer.Buff] >= old(bufLen[f.Buffer.Buff])
